@@ -1,3 +1,4 @@
+import DivanModel.Model.EntryList
 import DivanModel.Driver.Util
 import DivanModel.Model.Prog
 import DivanModel.Model.TreeOrder
@@ -784,15 +785,36 @@ def handleCore (mac : Bool) (args : List String) (obs : String) : Option Reply :
       (if r.ambiguous then "-ambiguous" else "") ++ (if clash then "-clash" else "") ++ (if sibAll then "" else "-nosibok")
   some { model := model, verdict := verdict, tag := (if mac then "mac-" else "") ++ tag }
 
-/-- `elist threads per rounds`: nodes pushed into one `EntryList` from several threads at once; every
-    one of them (and the head) must be there afterwards -/
+/-- `elist threads per rounds`: entries pushed into one `EntryList` from several threads at once. The lab
+    reports what a reader walking from the head sees (`H` = the head's own entry, then newest first).
+    Thread `t` pushes the entries `t*per .. t*per+per-1` in that order. The order of the reported list is a
+    linearisation of the pushes: the model (`Model/EntryList`) is run on exactly that schedule (oldest
+    entry first, each push uncontended: load, store, exchange) and must end with the same list. -/
 def handleElist (args : List String) (obs : String) : Option Reply := do
   match args.mapM String.toNat? with
   | some [threads, per, _rounds] =>
-    let want := threads * per + 1
-    some { model := toString want,
-           verdict := check (obs.trimAscii.toString = toString want)
-             s!"[C12] entries pushed into the registration list at the same time were lost (at least {want} - {obs.trimAscii.toString} of {want})",
+    let total := threads * per
+    let toks := (obs.trimAscii.toString.splitOn ",").filter (· ≠ "")
+    let body := (toks.drop 1).filterMap String.toNat?
+    let wellFormed := toks.head? = some "H" ∧ body.length + 1 = toks.length
+    let work : Nat → List Nat := fun t => if t < threads then (List.range per).map (t * per + ·) else []
+    -- the schedule the reported order stands for
+    let sched : List (Nat × Bool) := body.reverse.flatMap fun v =>
+      let t := if per = 0 then 0 else v / per
+      [(t, false), (t, false), (t, false)]
+    let fin := EList.run (EList.init work) sched
+    let seen := EList.walk fin.next (total + 1) fin.head
+    let model := ",".intercalate ("H" :: seen.map toString)
+    let missing := (List.range total).filter fun v => !body.contains v
+    let dups := body.length - body.eraseDups.length
+    some { model := model,
+           verdict :=
+             if !wellFormed then "bad:[C12] the registration list does not start with its head entry or holds something that was never pushed"
+             else if !missing.isEmpty then
+               s!"bad:[C12] entries pushed into the registration list at the same time were lost ({missing.length} of {total} missing, e.g. entry {missing.headD 0})"
+             else if dups > 0 ∨ body.length ≠ total then
+               s!"bad:[C12] an entry is in the registration list more than once ({body.length} entries walked, {total} pushed)"
+             else "ok",
            tag := if threads ≤ 1 then "trivial-one-thread" else s!"t{min threads 8}" }
   | _ => none
 
